@@ -240,11 +240,13 @@ func (f *c09FailSys) apply(o c09SOp) error {
 		g.putArmed = false
 		f.pstate = 0
 	case "wlow":
-		if f.pstate != 0 || o.I < 0 || o.I >= len(f.lows) {
-			return nil // only between two flushes; no such layer: no-op (and not part of the Coq term)
+		if f.pstate != 0 || len(f.lows) == 0 {
+			return nil // only between two flushes; no layer below: no-op (and not part of the Coq term)
 		}
+		// always the layer directly below the flushed one: the model sees what lies below through its flattened content,
+		// and a batch put into the topmost of those layers is that batch applied to the content
 		mem, stor, c := c09BatchMaps(o)
-		if err := f.lows[o.I].PutChangeSet(mem, stor); err != nil {
+		if err := f.lows[len(f.lows)-1].PutChangeSet(mem, stor); err != nil {
 			return err
 		}
 		f.coqActs = append(f.coqActs, "FD "+c)
